@@ -4,7 +4,7 @@
     so the quantification over [sched : list nat] covers every interleaving of any number of
     threads calling any keys. [m0] is what is memoized beforehand (cold / warm store). *)
 From Coq Require Import List Arith Bool ZArith.
-From Memento Require Import Storage.Cache Storage.CacheProofs Gen.SourceFacts Gen.FactsThreads.
+From Memento Require Import Storage.Cache Storage.CacheProofs Gen.SourceFacts Gen.FactsThreads Runner.SharedTable.
 From Memento Require Import Runner.Threads Runner.ThreadsProofs.
 Import ListNotations.
 Open Scope nat_scope.
@@ -55,3 +55,24 @@ Example C09_witness :
   let s := run true (init (fun k => Nat.eqb k 9) [7; 7; 9]) (concat (repeat [0; 1; 2; 1] 10)) in
   execs s 7 = 1 /\ execs s 9 = 0 /\ ths s 0 = Some (7, PDone) /\ ths s 1 = Some (7, PDone) /\ ths s 2 = Some (9, PDone).
 Proof. vm_compute. auto. Qed.
+
+(** the tables of the in-memory storage backend are shared by the threads without a lock. If the inner
+    map of a function is obtained by one indivisible get-or-create step, then under EVERY interleaving
+    of any number of memoizations (any functions, any argument hashes) every memento that was added is
+    in the table at the end *)
+Theorem C09_shared_table_atomic_inserts_keep_everything : forall pre f a post t,
+  forallb SharedTable.gentle (pre ++ SharedTable.Add f a :: post) = true ->
+  In (SharedTable.GetOrCreate f) pre ->
+  SharedTable.has (SharedTable.run t (pre ++ SharedTable.Add f a :: post)) f a = true.
+Proof. exact atomic_inserts_keep_everything. Qed.
+Print Assumptions C09_shared_table_atomic_inserts_keep_everything.
+
+(** ... and with "test for the key, then assign a fresh map" a schedule of two threads loses a memento *)
+Theorem C09_shared_table_check_then_create_refuted :
+  let schedule := [SharedTable.Create 7; SharedTable.Add 7 1; SharedTable.Create 7; SharedTable.Add 7 2] in
+  SharedTable.has (SharedTable.run [] schedule) 7 1 = false /\ SharedTable.has (SharedTable.run [] schedule) 7 2 = true /\
+  SharedTable.has (SharedTable.run [] [SharedTable.GetOrCreate 7; SharedTable.Add 7 1; SharedTable.GetOrCreate 7; SharedTable.Add 7 2]) 7 1 = true.
+Proof. exact check_then_create_loses_a_memento_refuted. Qed.
+
+Theorem C09_current_source_memory_backend_inserts_atomically : memstore_atomic_insert = Some true.
+Proof. exact memstore_atomic_insert_ok. Qed.
